@@ -306,8 +306,7 @@ Definition adjust (i : ainput) : list Z * list Z * list Z :=
   | Some be =>
       let new := match be with [] => old | _ => to_set be end in
       if a_static i then
-        let rec := to_set (recover_set i) in
-        let up := match rec with [] => old | _ => rec end in
+        let up := to_set (recover_set i) in       (* written even when it is empty *)
         (up, up, new)
       else (new, new, new)
   end.
